@@ -138,7 +138,14 @@ fn run_f<T: MontConfig<N>, const N: usize>(op: &str, a: &[Arg]) -> Vec<Arg> {
                 2 => sop::<F<T, N>, 2>(&x, &y),
                 3 => sop::<F<T, N>, 3>(&x, &y),
                 4 => sop::<F<T, N>, 4>(&x, &y),
+                5 => sop::<F<T, N>, 5>(&x, &y),
+                6 => sop::<F<T, N>, 6>(&x, &y),
                 7 => sop::<F<T, N>, 7>(&x, &y),
+                8 => sop::<F<T, N>, 8>(&x, &y),
+                9 => sop::<F<T, N>, 9>(&x, &y),
+                10 => sop::<F<T, N>, 10>(&x, &y),
+                16 => sop::<F<T, N>, 16>(&x, &y),
+                17 => sop::<F<T, N>, 17>(&x, &y),
                 _ => return unsupported(),
             };
             ok(elem(r))
@@ -303,6 +310,23 @@ field_cfg!(D36, H36, 13, "381089938967285715381043280277231459643535006722221627
 // 37: m521 (521 bits)
 field_cfg!(D37, H37, 9, "6864797660130609714981900799081393217269435300143305409394463459185543183397656052122559640661454554977296311391480858037121987999716643812574028291115057151", [0xffffffffffffffff, 0xffffffffffffffff, 0xffffffffffffffff, 0xffffffffffffffff, 0xffffffffffffffff, 0xffffffffffffffff, 0xffffffffffffffff, 0xffffffffffffffff, 0x00000000000001ff]);
 
+// 38: top62 (62 bits)
+field_cfg!(D38, H38, 1, "4611686018427387847", [0x3fffffffffffffc7]);
+// 39: top60 (60 bits)
+field_cfg!(D39, H39, 1, "1152921504606846883", [0x0fffffffffffffa3]);
+// 40: top126 (126 bits)
+field_cfg!(D40, H40, 2, "85070591730234615865843651857942052727", [0xffffffffffffff77, 0x3fffffffffffffff]);
+// 41: top125 (125 bits)
+field_cfg!(D41, H41, 2, "42535295865117307932921825928971026423", [0xfffffffffffffff7, 0x1fffffffffffffff]);
+// 42: top254 (254 bits)
+field_cfg!(D42, H42, 4, "28948022309329048855892746252171976963317496166410141009864396001978282409739", [0xffffffffffffff0b, 0xffffffffffffffff, 0xffffffffffffffff, 0x3fffffffffffffff]);
+// 43: top253 (253 bits)
+field_cfg!(D43, H43, 4, "14474011154664524427946373126085988481658748083205070504932198000989141204719", [0xfffffffffffffeef, 0xffffffffffffffff, 0xffffffffffffffff, 0x1fffffffffffffff]);
+// 44: top252 (252 bits)
+field_cfg!(D44, H44, 4, "7237005577332262213973186563042994240829374041602535252466099000494570602367", [0xffffffffffffff7f, 0xffffffffffffffff, 0xffffffffffffffff, 0x0fffffffffffffff]);
+// 45: top190 (190 bits)
+field_cfg!(D45, H45, 3, "1569275433846670190958947355801916604025588861116008628213", [0xfffffffffffffff5, 0xffffffffffffffff, 0x3fffffffffffffff]);
+
 fn dispatch(id: u64, flavour: u64, op: &str, a: &[Arg]) -> Vec<Arg> {
     match (id, flavour) {
         (0, 0) => run_f::<D0, 1>(op, a),
@@ -381,6 +405,22 @@ fn dispatch(id: u64, flavour: u64, op: &str, a: &[Arg]) -> Vec<Arg> {
         (36, 1) => run_f::<H36, 13>(op, a),
         (37, 0) => run_f::<D37, 9>(op, a),
         (37, 1) => run_f::<H37, 9>(op, a),
+        (38, 0) => run_f::<D38, 1>(op, a),
+        (38, 1) => run_f::<H38, 1>(op, a),
+        (39, 0) => run_f::<D39, 1>(op, a),
+        (39, 1) => run_f::<H39, 1>(op, a),
+        (40, 0) => run_f::<D40, 2>(op, a),
+        (40, 1) => run_f::<H40, 2>(op, a),
+        (41, 0) => run_f::<D41, 2>(op, a),
+        (41, 1) => run_f::<H41, 2>(op, a),
+        (42, 0) => run_f::<D42, 4>(op, a),
+        (42, 1) => run_f::<H42, 4>(op, a),
+        (43, 0) => run_f::<D43, 4>(op, a),
+        (43, 1) => run_f::<H43, 4>(op, a),
+        (44, 0) => run_f::<D44, 4>(op, a),
+        (44, 1) => run_f::<H44, 4>(op, a),
+        (45, 0) => run_f::<D45, 3>(op, a),
+        (45, 1) => run_f::<H45, 3>(op, a),
         _ => panic!("harness: unknown (config, flavour)"),
     }
 }
